@@ -3,7 +3,8 @@
 //     replay(selector), replay(a: S), replay(b: S) [, replay(c: S)]
 //        -> if_then_else(cond, a, b)  |  if_cmp(cmp, a, b, c)      (stdlib operators; publish a REF<S>)
 //        -> [stage]        direct | pass  (the REF goes through a nested_ sub-graph)
-//                                 | inner (the consumers live inside a nested_ sub-graph)
+//                                 | inner (the consumers live inside a nested_ sub-graph that takes S)
+//                                 | innerref (... that takes the REF<S> and dereferences it itself)
 //        -> 1..3 counting consumer nodes   (harness static nodes with an S input; consumer 1 is
 //                                           InputValidity::Unchecked, the others use the default gate)
 //        -> record(deref)                  the stdlib recorder reading THROUGH the reference
@@ -15,7 +16,7 @@
 //   case <id>                               -> "case <id>"      (flushes a pending history first)
 //   cfg <shape> <ncons> <stage> [<selop>]   -> "ok" | "bad-op"
 //        shape: ts | tss | tsd   (TS<Int>, TSS<Int>, TSD<Int,TS<Int>>);  ncons 1..3
-//        stage: direct | pass | inner;   selop: ite (default) | cmp
+//        stage: direct | pass | inner | innerref;   selop: ite (default) | cmp
 //   c [sel=<a|b|c>] [a=<d>] [b=<d>] [c=<d>]   one engine cycle (MIN_ST + i); answered when the run happens
 //        sel=a: cond=true / cmp=LT,  sel=b: cond=false / cmp=EQ,  sel=c: cmp=GT (cmp only)
 //        d   ts: <int>     tss: +k,-k,...      tsd: k:v,-k,...
@@ -202,6 +203,14 @@ namespace
         static void           compose(Wiring &w, Port<S> in) { wire_consumers<S>(w, in, N); }
     };
 
+    // the REF itself crosses the boundary; the child dereferences it for its consumers
+    template <typename S, int N>
+    struct HgvInnerRef
+    {
+        static constexpr auto name = "hgv_ref_inner_ref";
+        static void           compose(Wiring &w, Port<REF<S>> in) { wire_consumers<S>(w, in.template as<S>(), N); }
+    };
+
     struct Cfg
     {
         std::string shape{"ts"};
@@ -351,6 +360,13 @@ namespace
                 auto through = nested_<HgvRefPass<S>>(w, sel.template as<REF<S>>());
                 wire_consumers<S>(w, through.template as<S>(), cfg.ncons);
             }
+            else if (cfg.stage == "innerref")
+            {
+                auto ref = sel.template as<REF<S>>();
+                if (cfg.ncons == 1) { nested_<HgvInnerRef<S, 1>>(w, ref); }
+                else if (cfg.ncons == 2) { nested_<HgvInnerRef<S, 2>>(w, ref); }
+                else { nested_<HgvInnerRef<S, 3>>(w, ref); }
+            }
             else
             {
                 auto deref = sel.template as<S>();
@@ -490,7 +506,7 @@ int main()
                 Cfg  c;
                 bool ok = (w.size() == 4 || w.size() == 5) && (w[1] == "ts" || w[1] == "tss" || w[1] == "tsd") &&
                           (w[2] == "1" || w[2] == "2" || w[2] == "3") &&
-                          (w[3] == "direct" || w[3] == "pass" || w[3] == "inner") &&
+                          (w[3] == "direct" || w[3] == "pass" || w[3] == "inner" || w[3] == "innerref") &&
                           (w.size() == 4 || w[4] == "ite" || w[4] == "cmp");
                 if (ok)
                 {
